@@ -135,7 +135,9 @@ def model_check(run):
 # ------------------------------------------------------------------------------------- replay of one history
 def _env(hashseed):
     e = dict(os.environ)
-    e["PYTHONPATH"] = codec.shim_dir() + os.pathsep + REPO
+    e.pop("PYTHONPATH", None)
+    e["VERIF_HIST_REPO"] = REPO
+    e["VERIF_HIST_CODEC"] = codec.build()
     e["PYTHONHASHSEED"] = str(hashseed)
     e["OPENBLAS_NUM_THREADS"] = e["OMP_NUM_THREADS"] = "1"     # no BLAS thread pool per interpreter (start-up cost only)
     return e
@@ -150,7 +152,7 @@ def _run_history(job):
     t0 = time.time()
     rc, err = None, ""
     try:
-        p = subprocess.run([PY, DRIVER, plan, out], env=job["env"], cwd=wd, capture_output=True, text=True,
+        p = subprocess.run([PY, "-P", DRIVER, plan, out], env=job["env"], cwd=wd, capture_output=True, text=True,
                            timeout=job.get("timeout", 600))
         rc, err = p.returncode, p.stderr[-600:]
     except subprocess.TimeoutExpired:
